@@ -221,10 +221,11 @@ impl TransformerContext {
             }) else {
                 break;
             };
-            uses.push(target_el);
+            let use_el = target_el;
             target_el = self
                 .get_element(&elref)
                 .ok_or(SvgdxError::ReferenceError(elref))?;
+            uses.push((use_el, target_el));
         }
 
         // The box in an element's own user space: its `transform` is applied last, since
@@ -235,7 +236,17 @@ impl TransformerContext {
         }
         el_bbox = target_el.transformed(el_bbox)?;
 
-        for use_el in uses.into_iter().rev() {
+        for (use_el, use_target) in uses.into_iter().rev() {
+            // A symbol with a viewBox is fitted into (and clipped to) the viewport
+            // which the width and height of the `use` establish.
+            if let ("symbol", true, Some(w), Some(h)) = (
+                use_target.name.as_str(),
+                use_target.has_attr("viewBox"),
+                use_el.get_attr("width").and_then(|w| strp(&w).ok()),
+                use_el.get_attr("height").and_then(|h| strp(&h).ok()),
+            ) {
+                el_bbox = el_bbox.map(|_| BoundingBox::new(0., 0., w, h));
+            }
             // assumes use_el has already had position & attributes resolved
             let translate_x = use_el.get_attr("x");
             let translate_y = use_el.get_attr("y");
